@@ -108,7 +108,7 @@ def rule_splitsafe(ctx):
         if v.op == "call" and call_name(v) == ".split" and len(v.a[1]) == 2 and v.a[1][1].op == "const":
             ch = v.a[1][1].a[0]
             k, wit = regexfa.max_count(A, ch)
-            inpc = any(c.op == "cmp" and c.a[0] == "in" and tm.is_const(c.a[1], ch) and p for c, p in symeval.pc_conds(u.pc))
+            inpc = any(symeval.holds(c, p, "in") and tm.is_const(c.a[1], ch) for c, p in symeval.pc_conds(u.pc))
             n += 1
             yield ob("C10.SPLITSAFE", f, "chord.split:split(%r)" % ch, k <= 1 and inpc and u.n == 2, "every accepted label has at most %d %r (witness %r); unpacking into %d targets under `%r in label`" % (k, ch, wit, u.n, ch), node=u.node)
     need(n >= 3, "C10.SPLITSAFE", "chord.split no longer splits on '/', '(' and ':' by two-target unpacking")
